@@ -186,10 +186,9 @@ impl TaskManager {
 	}
 
 	pub(crate) fn wake_up_level(&self) {
-		// Only notify if not already running
-		if !self.level_running.load(Ordering::Acquire) {
-			self.level_notify.notify_one();
-		}
+		// Always leave a wake-up behind (see wake_up_memtable): a round that is just ending
+		// would not see the tables this wake-up is about.
+		self.level_notify.notify_one();
 	}
 
 	pub async fn stop(&self) {
